@@ -22,6 +22,9 @@ import RV.Base.Proto
                                             listed triples (R: g OP other, L: other OP g);  sbinl OP i R|L … likewise
     iopen k g s p o                      -> ok            (generator k starts now)
     iyield k s p o                       -> adm | NOT-adm (could the machine yield this triple now?)
+    gopen k g s p o                      -> ok            (concrete generator k = graph g's triples(pattern), not yet begun)
+    gnext k                              -> s,p,o | stop | error   (one next() of the concrete generator machine `NGen`)
+  `tri` / `utri` / `mtri` are answered by running the concrete generator machine to exhaustion (`NMem.drain`).
   Simple stores i ∈ {0,1} (one graph each, identifier 50+i):
     sadd i s p o | sremove i s p o | sset i s p o | saddN i (s p o c k)* | siadd i (s p o)* | sisub i (s p o)*
     siaddS i j | sisubS i j              (operand = the graph of simple store j)
@@ -37,6 +40,7 @@ structure DS where
   s0 : NSMem := {}
   s1 : NSMem := {}
   its : List (Nat × Iter) := []
+  gens : List (Nat × NGen) := []
 
 def tripleLt (a b : Triple) : Bool := lexLt [a.1, a.2.1, a.2.2] [b.1, b.2.1, b.2.2]
 
@@ -155,7 +159,7 @@ def step (d : DS) : List String → DS × String
     | _, _ => (d, "bad-op")
   | ["tri", g, a, b, c] =>
     match g.toNat?, pat? a b c with
-    | some g, some p => (d, if d.m.triplesRaises p then "error" else showTriples (d.m.triples p (some g)))
+    | some g, some p => (d, if d.m.triplesRaises p then "error" else showTriples (d.m.drain p (some g)))
     | _, _ => (d, "bad-op")
   | ["madd", c, a, b, c'] =>
     match c.toNat?, triple? a b c' with
@@ -175,7 +179,7 @@ def step (d : DS) : List String → DS × String
     | none => (d, "bad-op")
   | ["mtri", c, a, b, c'] =>
     match optNat? c, pat? a b c' with
-    | some c, some p => (d, if d.m.triplesRaises p then "error" else showTriplesC (d.m.triplesC p c))
+    | some c, some p => (d, if d.m.triplesRaises p then "error" else showTriplesC ((d.m.drain p c).map (fun t => (t, ctxKeys d.m.cx t))))
     | _, _ => (d, "bad-op")
   | ["mlen", c] =>
     match optNat? c with
@@ -188,7 +192,7 @@ def step (d : DS) : List String → DS × String
   | ["ulen"] => (d, toString (d.m.len none))
   | ["utri", a, b, c] =>
     match pat? a b c with
-    | some p => (d, if d.m.triplesRaises p then "error" else showTriples (d.m.triples p none))
+    | some p => (d, if d.m.triplesRaises p then "error" else showTriples (d.m.drain p none))
     | none => (d, "bad-op")
   | ["bin", op, g, h] =>
     match g.toNat?, h.toNat? with
@@ -217,6 +221,23 @@ def step (d : DS) : List String → DS × String
     match k.toNat?, g.toNat?, pat? a b c with
     | some k, some g, some p => ({ d with its := aset d.its k (Iter.start d.m.toMem p g) }, "ok")
     | _, _, _ => (d, "bad-op")
+  | ["gopen", k, g, a, b, c] =>
+    match k.toNat?, g.toNat?, pat? a b c with
+    | some k, some g, some p => ({ d with gens := aset d.gens k (NGen.new p (some g)) }, "ok")
+    | _, _, _ => (d, "bad-op")
+  | ["gnext", k] =>
+    match k.toNat? with
+    | some k =>
+      match alookup d.gens k with
+      | none => (d, "bad-op")
+      | some gen =>
+        if gen.nextRaises d.m then (d, "error")
+        else
+          ({ d with gens := aset d.gens k (gen.next d.m).1 },
+            match (gen.next d.m).2 with
+            | some t => showNats [t.1, t.2.1, t.2.2]
+            | none => "stop")
+    | none => (d, "bad-op")
   | ["iyield", k, a, b, c] =>
     match k.toNat?, triple? a b c with
     | some k, some t => iterAdm d k t
